@@ -63,7 +63,9 @@ func VHNumeric() {
 		r := vCallNum(fs, "round", x)
 		vReach("round")
 		vAssert(r == math.Floor(r), "round(x) is an integer")
-		vAssert(math.Abs(r-x) <= 0.5, "round(x) is within 0.5 of x")
+		// |r - x| <= 0.5 in exact arithmetic: r is an integer below 2^52, so r-0.5 and r+0.5 are exact doubles,
+		// whereas the double subtraction r-x may itself round (r = 1, x = 0.49999999999999994 gives exactly 0.5)
+		vAssert(r-0.5 <= x && x <= r+0.5, "round(x) is within 0.5 of x")
 	}
 }
 
@@ -115,6 +117,15 @@ func VHConversions() {
 		w, ok := vCall1(fs, "number", s)
 		vAssert(ok && vKind(w) == 0 && *w.Number == x, "number(string(x)) == x for integral x")
 		vReach("number-roundtrip")
+	case 5: // number(string(x)) == x on a finite set of non-integral and large values (the digits are strconv's:
+		// this part is enumeration, it pins the formats string() produces -- plain, negative, exponent +NN and -NN)
+		xs := []float64{0.5, -2.25, 0.1, 1234567.5, -1234567.25, 1e21, 1.5e300, -2.5e-7, 1e-05, 123456789012345680, 0.30000000000000004, 5e-324, 1.7976931348623157e308, 999999.5, 1000000.5}
+		x := xs[vChoose("x", len(xs))]
+		s, ok := vCall1(fs, "string", vNum(x))
+		vAssert(ok && vKind(s) == 2, "string(x) is a string")
+		w, ok := vCall1(fs, "number", s)
+		vAssert(ok && vKind(w) == 0 && *w.Number == x, "number(string(x)) == x")
+		vReach("number-roundtrip-nonintegral")
 	case 3: // bool(s) errs outside ParseBool's accepted spellings, succeeds inside
 		s := vString("s", vChoose("slen", 6))
 		w, ok := vCall1(fs, "bool", vStrV(s))
